@@ -1,9 +1,21 @@
 #!/usr/bin/env python3
-"""print the mutation-agent prompt for a property: mkmutprompt.py C06 C06a 3"""
-import json, sys
+"""print the mutation-agent prompt for a property: mkmutprompt.py C06 C06b 3 [--avoid]
+--avoid appends one-line summaries of the seeded changes already kept for that property, so a new round
+produces different ideas (nothing else from /verif is revealed)."""
+import json, sys, glob
 pid, tag, n = sys.argv[1], sys.argv[2], sys.argv[3]
 props = {json.loads(l)["id"]: json.loads(l) for l in open("/verif/properties.jsonl")}
 p = props[pid]
 text = f"id: {pid}\ntitle: {p['title']}\nstatement: {p['statement']}\nquantifier: {p['quantifier']['text']}\nsource files involved: {', '.join(p['anchors']['files'])}"
 t = open("/verif/tools/prompts/mutant.md").read()
-print(t.replace("{WT}", f"/tmp/mut/{tag}").replace("{OUT}", f"/tmp/mut/out/{tag}").replace("{PROPERTY}", text).replace("{N}", n))
+t = t.replace("{WT}", f"/tmp/mut/{tag}").replace("{OUT}", f"/tmp/mut/out/{tag}").replace("{PROPERTY}", text).replace("{N}", n)
+if "--avoid" in sys.argv:
+    olds = []
+    for f in sorted(glob.glob(f"/verif/seeded/{pid}-*/meta.json")):
+        m = json.load(open(f))
+        olds.append("- " + (m.get("summary") or "").split(". ")[0][:300].replace("\n", " "))
+    if olds:
+        t += ("\n\nA previous round already used the following ideas — produce DIFFERENT ones (other functions, other mechanisms, "
+              "other kinds of trigger: option combinations, ambient configuration/environment, state carried across calls, "
+              "rarely used entry points, interactions between two call sites, platform limits):\n" + "\n".join(olds) + "\n")
+print(t)
